@@ -11,4 +11,4 @@ CONSTANTS
 INIT Init
 NEXT Next
 VIEW view
-INVARIANTS EmitInv C16_OneLive C16_TableIsLive C16_Capacity C16_SessionConsistent C16_Attribution
+INVARIANTS EmitInv C16_OneLive C16_TableIsLive C16_Capacity C16_SessionConsistent C16_Attribution SessionHasConnection LinkRecorded
